@@ -7,6 +7,7 @@ operation sequence against a reference model.
 from __future__ import annotations
 
 import signal
+from pathlib import Path
 
 from ..runner import Engine, Outcome
 
@@ -365,4 +366,64 @@ class Mp4Input(Engine):
         return c16_mp4.check_mp4(case)
 
 
-ENGINES = [HttpSurface(), Injection(), Mp4Input()]
+class Mp4Fuzz(Engine):
+    """coverage-guided bytes (atheris / libFuzzer) into Mp4Atom.load; even shards start from small valid files,
+    odd shards from an empty corpus; the inputs that tripped the oracle and the corpus the fuzzer grew are
+    re-judged here, in process, by c16_fuzz.check_bytes"""
+    name = "mp4_fuzz"
+    kind = "custom"
+
+    def budget(self, tier):
+        return 16_000 if tier == "quick" else 3_200_000
+
+    def check(self, case):
+        from . import c16_fuzz
+        return c16_fuzz.check_bytes(bytes.fromhex(case["hex"]))
+
+    def setup(self, tier):
+        Mp4Input.setup(self, tier)
+
+    def run(self, ctx):
+        import json as _json
+        import os
+        import shutil
+        import subprocess
+        import sys
+        import tempfile
+        from . import c16_fuzz
+        runs = ctx.share(self.budget(ctx.tier))
+        wd = tempfile.mkdtemp(prefix="vt-fuzz-", dir=os.environ.get("VT_TMP"))
+        try:
+            seeded = ctx.shard % 2 == 0
+            env = dict(os.environ, PYTHONPATH=os.pathsep.join(p for p in sys.path if p))
+            import time as _time
+            deadline = float(os.environ.get("VT_DEADLINE", "0") or 0)
+            budget_s = max(30, int(deadline - _time.time())) if deadline else 0
+            r = subprocess.run([sys.executable, "-m", "vt.props.c16_fuzz", wd, str(runs), str(ctx.engine_seed(3) % (2 ** 31)),
+                                "1" if seeded else "0", str(budget_s)], cwd=str(Path(__file__).resolve().parents[2]), env=env,
+                               stdout=subprocess.DEVNULL, stderr=subprocess.PIPE, timeout=6 * 3600)
+            stats = {}
+            try:
+                stats = _json.loads((Path(wd) / "stats.json").read_text())
+            except (OSError, ValueError):
+                pass
+            if not stats:
+                from ..runner import HarnessError
+                raise HarnessError(f"atheris child produced no statistics (rc={r.returncode}): {r.stderr.decode(errors='replace')[-1500:]}")
+            ctx.stats.notes.setdefault("fuzz_executions", __import__("collections").Counter())["seeded" if seeded else "empty-corpus"] += stats.get("n", 0)
+            ctx.stats.notes.setdefault("fuzz_outcomes", __import__("collections").Counter()).update(
+                {"parsed": stats.get("parsed", 0), "raised": stats.get("raised", 0)})
+            files = sorted((Path(wd) / "hits").glob("*.bin")) + sorted((Path(wd) / "corpus").glob("*"))
+            for f in files[:4000]:
+                data = f.read_bytes()
+                if f.name.startswith("seed-") or len(data) > c16_fuzz.MAX_LEN:
+                    continue
+                case = {"hex": data.hex()}
+                out = c16_fuzz.check_bytes(data)
+                out.cls("corpus:" + ("seeded" if seeded else "empty"))
+                ctx.record(self.name, case, out)
+        finally:
+            shutil.rmtree(wd, ignore_errors=True)
+
+
+ENGINES = [HttpSurface(), Injection(), Mp4Input(), Mp4Fuzz()]
